@@ -29,7 +29,7 @@ func maxLogN() int {
 	if h.Thorough() {
 		return 11
 	}
-	return 7
+	return 9
 }
 
 // genSpec draws an RLWE literal: log2 N in 4..7 (thorough ..9), 1-4 Q primes and 0-2 P primes of 12..60 bits (sizes
@@ -451,13 +451,13 @@ type MetaSpec struct {
 	BitRev    bool `json:"bitrev"`
 }
 
-func genMeta(t *rapid.T, logN int) MetaSpec {
+func genMeta(t *rapid.T, logN int, label string) MetaSpec {
 	return MetaSpec{
-		ScaleKind: rapid.IntRange(0, 4).Draw(t, "scaleKind"),
-		Rows:      rapid.IntRange(0, 1).Draw(t, "rows"),
-		Cols:      rapid.IntRange(0, logN-1).Draw(t, "cols"),
-		Batched:   rapid.Bool().Draw(t, "batched"),
-		BitRev:    rapid.Bool().Draw(t, "bitrev"),
+		ScaleKind: rapid.IntRange(0, 4).Draw(t, label+"scaleKind"),
+		Rows:      rapid.IntRange(0, 1).Draw(t, label+"rows"),
+		Cols:      rapid.IntRange(0, logN-1).Draw(t, label+"cols"),
+		Batched:   rapid.Bool().Draw(t, label+"batched"),
+		BitRev:    rapid.Bool().Draw(t, label+"bitrev"),
 	}
 }
 
